@@ -106,10 +106,27 @@ KF_C03(c) ==
                        /\ ModelAgrees(c, run)
   THEN "zero-width-only-cell" ELSE ""
 
+\* C02 "emoji-presentation-sequence": text is laid out character by character (UnicodeWidthChar), so an emoji
+\* followed by U+FE0F counts 1 + 0 columns, while the line measured as a string (UnicodeWidthStr, the way a
+\* terminal that honours the variation selector shows it) counts 2: such a line can be up to one column per
+\* sequence wider than the width asked for.  Class: by its characters every line fits, every line that is too
+\* wide as a string holds U+FE0F, and the output is exactly what the specification (which counts characters)
+\* predicts.
+KF_C02(c) ==
+  IF \A i \in 1..Len(c.runs) :
+       LET run == c.runs[i] IN
+       \/ P_C02_run(run)
+       \/ /\ \A j \in 1..Len(run.res.lines) :
+                /\ LineW(run.res.lines[j]) <= run.w
+                /\ run.res.sw[j] > run.w => \E q \in 1..Len(run.res.lines[j]) : run.res.lines[j][q][1] = 65039
+          /\ ModelAgrees(c, run)
+  THEN "emoji-presentation-sequence" ELSE ""
+
 KFClass(prop, c) ==
   CASE prop = "C12" -> KF_C12(c)
     [] prop = "C18" -> KF_C18(c)
     [] prop = "C03" -> KF_C03(c)
+    [] prop = "C02" -> KF_C02(c)
     [] prop \in {"C05", "C06"} -> KF_Table(c)
     [] prop = "C08" -> KF_C08(c)
     [] prop = "C15" -> KF_C15(c)
